@@ -18,6 +18,7 @@ type heapParent struct {
 
 type Heap struct {
 	id      int
+	births  map[string]string // clock value at which the current incarnation of a variable was established
 	m       map[string]Term
 	parents []heapParent
 	vc      *VC
@@ -34,8 +35,38 @@ func (h *Heap) child() *Heap {
 	return &Heap{id: h.vc.heapCtr, m: map[string]Term{}, parents: []heapParent{{"true", h}}, vc: h.vc, noName: h.noName}
 }
 
+// birthOf: every reference stored in the current incarnation of the variable existed at this clock value.
+func (h *Heap) birthOf(name string) string {
+	if b, ok := h.births[name]; ok {
+		return b
+	}
+	var res string
+	switch len(h.parents) {
+	case 0:
+		res = h.get("clock")
+	case 1:
+		res = h.parents[0].h.birthOf(name)
+	default:
+		res = h.parents[0].h.birthOf(name)
+		for _, p := range h.parents[1:] {
+			if p.h.birthOf(name) != res {
+				res = h.get("clock")
+				break
+			}
+		}
+	}
+	if h.births == nil {
+		h.births = map[string]string{}
+	}
+	h.births[name] = res
+	return res
+}
+
 func (h *Heap) set(name string, t string) *Heap {
 	c := h.child()
+	if name != "clock" {
+		c.births = map[string]string{name: h.get("clock")}
+	}
 	so := h.vc.u.heapSorts[name]
 	if !h.noName && !isAtomic(t) {
 		n := h.vc.fresh(name, so)
@@ -150,6 +181,14 @@ func (h *Heap) havoc(ms *ModSet, why string) *Heap {
 	c := vc.fresh("clock!hv", "Int")
 	n.m["clock"] = Term{S: c, Sort: SInt}
 	vc.assume(app(">=", c, oldc))
+	if n.births == nil {
+		n.births = map[string]string{}
+	}
+	for v := range n.m {
+		if v != "clock" {
+			n.births[v] = c
+		}
+	}
 	return n
 }
 
